@@ -144,7 +144,7 @@ ExpectAttached(r) ==
     /\ ~(r.action = "publish" /\ r.reload = "change")
 
 \* generator: the scenario space
-Protos == {"rtsp", "rtmp", "hls"}
+Protos == {"rtsp", "rtmp", "srt", "hls"}
 CredTok == {"alice", "puba", "reader", "dave", "bad", "none"}
 UserOf(c) == IF c = "none" THEN "" ELSE IF c = "bad" THEN "alice" ELSE c
 PassOf(c) == IF c = "none" THEN "" ELSE IF c = "bad" THEN "wrong" ELSE "pw"
